@@ -60,7 +60,9 @@ def recoverNodeE (A : CmdSem) (envs : Nat → Env) (n : Node) (peers : Config) :
 RecoverNode's replay in `renvs`) -/
 def openNodeE (A : CmdSem) (envs renvs : Nat → Env) (n : Node) : Node :=
   match n.peersFile with
-  | some peers => replayLogE A envs (restoreNewest (recoverNodeE A renvs (openPrep n) peers))
+  | some peers =>
+    if checkConfig peers then replayLogE A envs (restoreNewest (recoverNodeE A renvs (openPrep n) peers))
+    else { n with fp := false }
   | none =>
     match n.snap with
     | some (i, _) =>
@@ -86,8 +88,10 @@ theorem openNodeE_eq (A : CmdSem) (envs renvs : Nat → Env) (n : Node) (h : Den
   cases hp : n.peersFile with
   | some peers =>
     simp only
-    rw [recoverNodeE_eq A renvs (openPrep n) peers h]
-    exact replayLogE_eq A envs _ (by rw [(restoreNewest_fields _).1]; exact h)
+    split
+    · rw [recoverNodeE_eq A renvs (openPrep n) peers h]
+      exact replayLogE_eq A envs _ (by rw [(restoreNewest_fields _).1]; exact h)
+    · rfl
   | none =>
     simp only
     cases hs : n.snap with
